@@ -44,6 +44,8 @@ structure Req where
   one : Bool
   trigs : List Nat
   usages : List Usage
+  bad : Bool := false  -- OpenCDR refuses the request: malformed nFPLMNID (mcc not 3 / mnc not 2-3 octets) or
+                       -- pDUSessionChargingInformation without pduSessionInformation.networkSlicingInfo.sNSSAI
 deriving DecidableEq, Repr, Inhabited
 
 /-- money state of one rating group of one subscriber
@@ -319,6 +321,13 @@ def create (s : State) (r : Req) : State × Resp :=
       let ue : Ue := match findUe s.ues r.supi with
         | some u => u
         | none => { supi := r.supi }
+      -- OpenCDR refuses the request (400) after NewCHFUe has stored the subscriber context, the notification
+      -- address has been overwritten and - for a session-based create - the sequence number has been taken:
+      -- the number is NOT handed back (another create may have taken the next one meanwhile)
+      if r.bad then
+        ({ s with ues := putUe s.ues { ue with notifyUri := r.uri },
+                  sessionSeq := if r.one then s.sessionSeq else s.sessionSeq + 1 }, { status := 400 })
+      else
       let (sid, sseq) := if r.one then (([] : Bytes), s.sessionSeq)
                          else (sessionId r.supi nf s.sessionSeq, s.sessionSeq + 1)
       let rec0 : Record :=
